@@ -22,7 +22,10 @@ OCAML = os.path.join(ROOT, "ocaml")
 HARNESS = os.path.join(ROOT, "harness")
 WORK = os.path.join(ROOT, "work")
 EVID = os.path.join(ROOT, "evidence")
-REPO = "/repo"
+# the tree under verification.  VERIF_REPO lets tools/seeded.py run a check against a scratch copy of /repo
+# (with a seeded change applied) without disturbing /repo; registered commands never set it.
+REPO = os.environ.get("VERIF_REPO", "/repo")
+ALT = REPO != "/repo"
 NPROC = os.cpu_count() or 4
 
 GOENV = dict(os.environ, GOFLAGS="-mod=mod", GOPROXY="off", GOSUMDB="off", GOTOOLCHAIN="local",
@@ -284,11 +287,21 @@ def build_driver(name, tags="verif"):
         except OSError:
             pass
         os.makedirs(os.path.join(HARNESS, "bin"), exist_ok=True)
-        rc, out = sh(["go", "build", "-tags", tags, "-o", "bin/" + name, "./cmd/" + name], cwd=HARNESS, env=GOENV,
+        extra, outname = [], "bin/" + name
+        if ALT:
+            with open(os.path.join(HARNESS, "go.mod")) as f:
+                mod = f.read().replace("=> /repo", "=> " + REPO)
+            write_if_changed(os.path.join(HARNESS, "alt.mod"), mod)
+            try:
+                shutil.copyfile(os.path.join(REPO, "go.sum"), os.path.join(HARNESS, "alt.sum"))
+            except OSError:
+                pass
+            extra, outname = ["-modfile=alt.mod"], "bin/alt-" + name
+        rc, out = sh(["go", "build"] + extra + ["-tags", tags, "-o", outname, "./cmd/" + name], cwd=HARNESS, env=GOENV,
                      timeout=1200)
     if rc != 0:
         return None, out[-4000:]
-    return os.path.join(HARNESS, "bin", name), ""
+    return os.path.join(HARNESS, outname), ""
 
 
 def read_obs(path):
@@ -354,7 +367,7 @@ def check(pid, tier, seed):
         log("unknown property", pid)
         return 2
     m = mods[pid]
-    wd = os.path.join(WORK, pid.lower())
+    wd = os.path.join(WORK, ("alt-" if ALT else "") + pid.lower())
     os.makedirs(wd, exist_ok=True)
     os.makedirs(EVID, exist_ok=True)
     for old in glob.glob(os.path.join(wd, "replay_*.json")):
@@ -579,7 +592,7 @@ def check(pid, tier, seed):
         "wall_s": round(time.time() - t0, 2),
         "violations": len(inputs) + (1 if (unproved and not inputs) else 0),
     }
-    with open(os.path.join(EVID, pid + ".json"), "w") as f:
+    with open(os.path.join(wd if ALT else EVID, pid + ".json"), "w") as f:   # evidence/ only from runs against /repo
         json.dump(ev, f, indent=1)
     log("%s %s: theorems %d/%d, cases %d (distinct non-trivial %d), mismatches %d, predicate failures %d, %.1fs -> %s"
         % (pid, tier, discharged, len(theorems), total_cases, len(distinct), mismatches, pred_fail, time.time() - t0,
